@@ -32,7 +32,7 @@ REGISTRY = dict(
 )
 
 HEADER = """From Coq Require Import List ZArith QArith Bool.
-From SB3V Require Import Model.Script Model.OnPolicyCollect.
+From SB3V Require Import Model.Script Model.OnPolicyCollect Model.Pipeline.
 Import ListNotations.
 """
 
@@ -52,7 +52,7 @@ def gen_case(rng, i):
     elif i % 9 == 4:
         obs_kind = rng.choice(["image", "dictimg"])
     split_fe = rng.random() < 0.4                   # separate actor / critic feature extractors (with parameters)
-    return {"id": i, "sde_freq": rng.choice([-1, 1, 2, 3]), "vecnorm": vecnorm, "vn_obs": rng.random() < 0.6, "split_fe": split_fe, "algo": rng.choice(["PPO", "A2C"]), "n_envs": n_envs, "n_steps": rng.randint(1, 6),
+    return {"id": i, "lam": rng.choice([0.5, 0.9, 0.95, 1.0]), "sde_freq": rng.choice([-1, 1, 2, 3]), "vecnorm": vecnorm, "vn_obs": rng.random() < 0.6, "split_fe": split_fe, "algo": rng.choice(["PPO", "A2C"]), "n_envs": n_envs, "n_steps": rng.randint(1, 6),
             "act": ACT_KINDS[i % len(ACT_KINDS)], "obs": obs_kind, "gamma": rng.choice([0.5, 0.9, 0.99]),
             "calls": calls, "seed": rng.randint(0, 10**6),
             "scripts": [se.gen_script(rng, max_len=5, tag_base=1000 * e, tag_cap=250 if obs_kind in ("image", "dictimg") else se.MAXTAG - 1, p_both=0.2, p_trunc=0.45) for e in range(n_envs)]}
@@ -219,10 +219,10 @@ def run_impl(case):
             pk["features_extractor_class"] = TinyExtractor
     th.manual_seed(case["seed"])
     if case["algo"] == "PPO":
-        model = sb3.PPO(policy, venv, n_steps=ns, batch_size=max(1, ns * ne), n_epochs=1, normalize_advantage=False, gamma=case["gamma"],
+        model = sb3.PPO(policy, venv, n_steps=ns, batch_size=max(1, ns * ne), n_epochs=1, normalize_advantage=False, gamma=case["gamma"], gae_lambda=case.get("lam", 0.95),
                         policy_kwargs=pk, device="cpu", seed=case["seed"], **kw)
     else:
-        model = sb3.A2C(policy, venv, n_steps=ns, gamma=case["gamma"], policy_kwargs=pk, device="cpu", seed=case["seed"], **kw)
+        model = sb3.A2C(policy, venv, n_steps=ns, gamma=case["gamma"], gae_lambda=case.get("lam", 1.0), policy_kwargs=pk, device="cpu", seed=case["seed"], **kw)
     pol = model.policy
     dspace = model.get_env().observation_space      # what the policy is handed (images: channel-first)
     events = []  # ("fwd", tags, actions, values, logps) / ("pv", tags, values, values by an independent path)
@@ -321,6 +321,7 @@ def run_impl(case):
             snaps.append({
                 "obs_tags": obs_tags, "actions": rb.actions.astype(np.float64).reshape(T, ne, -1).tolist(), "rewards": rb.rewards.astype(np.float64).tolist(),
                 "starts": rb.episode_starts.astype(np.float64).tolist(), "values": rb.values.astype(np.float64).tolist(), "logps": rb.log_probs.astype(np.float64).tolist(),
+                "advantages": rb.advantages.astype(np.float64).tolist(), "returns": rb.returns.astype(np.float64).tolist(), "lam": float(rb.gae_lambda),
                 "full": bool(rb.full), "re_values": v2.numpy().astype(np.float64).reshape(T, ne).tolist(), "re_logps": lp2.numpy().astype(np.float64).reshape(T, ne).tolist(),
                 "last_values": self.locals["values"].detach().cpu().numpy().astype(np.float64).reshape(-1).tolist(), "re_last_values": lv2.numpy().astype(np.float64).reshape(-1).tolist(),
                 "dones": [bool(d) for d in self.locals["dones"]], "new_obs_tags": lookup(self.locals["new_obs"]) if vn_obs else se.decode_batch(dspace, self.locals["new_obs"], ne),
@@ -500,6 +501,40 @@ def oracle(case, impl, ros):
                     probs.append(("oracle-env-action", f"{where}: env received {s['action']}, sampled {a.tolist()} -> expected {exp.tolist()}"))
                 if lo is not None and not (np.all(np.asarray(s["action"]) >= np.asarray(lo) - 1e-6) and np.all(np.asarray(s["action"]) <= np.asarray(hi) + 1e-6)):
                     probs.append(("oracle-env-action-out-of-bounds", f"{where}: env received {s['action']} outside [{lo}, {hi}]"))
+        # end to end: the advantage in the buffer is the discounted sum of the definition over the env-side log and the policy's values
+        lam = sn.get("lam", 1.0)
+        for e in range(ne):
+            cells = []
+            for t in range(ns):
+                g = r * ns + t
+                if g >= len(gt[e]):
+                    break
+                s = gt[e][g]
+                base_r = impl["seen_r"][g][e] if impl.get("seen_r") else s["r"]
+                rew = base_r
+                if s["trunc"] and not s["term"]:
+                    cand = [p for p in ro["pv"][t] if p[1] == [s["tag"]]]
+                    if cand:
+                        rew = base_r + gamma * (cand[0][3][0] if len(cand[0]) > 3 else cand[0][2][0])
+                nv = ro["fwd"][t + 1][3][e] if t + 1 < ns else (ro["last"][3][e] if len(ro["last"]) > 3 else ro["last"][2][e])
+                cells.append((rew, ro["fwd"][t][3][e], nv, 0.0 if s["done"] else 1.0))
+            if len(cells) == ns:
+                for t in range(ns):
+                    acc, coef = 0.0, 1.0
+                    for k in range(t, ns):
+                        rw, v, nv, nnt = cells[k]
+                        acc += coef * (rw + gamma * nv * nnt - v)
+                        coef *= gamma * lam * nnt
+                        if nnt == 0.0:
+                            break
+                    got = sn["advantages"][t][e]
+                    if not close(got, acc, 1e-4, 1e-4):
+                        probs.append(("oracle-pipeline-advantage", f"rollout {r} step {t} env {e}: buffer advantage {got}, discounted sum over the env log and the policy's values {acc} "
+                                                                   f"(gamma {gamma}, lambda {lam}, cells (reward', V, next V, non-terminal) {cells[t:]})"))
+                        break
+                    if not close(sn["returns"][t][e], got + cells[t][1], 1e-4, 1e-4):
+                        probs.append(("oracle-pipeline-return", f"rollout {r} step {t} env {e}: return {sn['returns'][t][e]} != advantage + value {got + cells[t][1]}"))
+                        break
         # last values
         g_last = (r + 1) * ns - 1
         for e in range(ne):
@@ -540,6 +575,7 @@ def model_exprs(case, impl, ros):
         ak = "ActId"
     gt = ground_truth(case, impl)
     exprs = []
+    PIPE_CALLS = {}
     ncalls = len(case["calls"])
     for e in range(ne):
         calls, impls = [], []
@@ -569,15 +605,39 @@ def model_exprs(case, impl, ros):
             eff_reset = case["calls"][ci]["reset"] or ci == 0
             calls.append(f"({coq_bool(eff_reset)}, {coq_list(rs)})")
             impls.append(coq_list(ims))
+        PIPE_CALLS[e] = coq_list(calls)
         exprs.append(f"check_col (1 # 100000)%Q (1 # 100000)%Q {ak} {fq(case['gamma'])} {se.coq_script(case['scripts'][e])} {coq_list(calls)} {coq_list(impls)}")
     if impl.get("use_sde"):
         exprs.append(f"sde_calls true {coq_Z(impl['sde_freq'])} {common.coq_nat(ns)}")
+    if not case.get("vecnorm"):
+        lam = impl["snaps"][0].get("lam", 1.0) if impl["snaps"] else 1.0
+        for e in range(ne):
+            lvss, advss = [], []
+            for ci in range(ncalls):
+                lvs, advs = [], []
+                for r, (ro, sn) in enumerate(zip(ros, impl["snaps"])):
+                    if ro["call"] != ci + 1:
+                        continue
+                    lvs.append(fq(ro["last"][2][e]))
+                    advs.append(coq_list([sn["advantages"][t][e] for t in range(ns)], fq))
+                lvss.append(coq_list(lvs))
+                advss.append(coq_list(advs))
+            exprs.append(f"check_pipeline (1 # 10000)%Q (1 # 10000)%Q {ak} {fq(case['gamma'])} {fq(lam)} {se.coq_script(case['scripts'][e])} {PIPE_CALLS[e]} {coq_list(lvss)} {coq_list(advss)}")
     return exprs
 
 
 def compare(case, impl, ros, vals):
     probs = []
     ne, ns = case["n_envs"], case["n_steps"]
+    if not case.get("vecnorm"):
+        base = ne + (1 if impl.get("use_sde") else 0)
+        for e in range(ne):
+            flat = [ro for call in vals[base + e] for ro in call]
+            for r, oks in enumerate(flat):
+                if len(oks) != ns or not all(oks):
+                    probs.append(("pipeline-advantage", f"rollout {r} env {e}: buffer advantages {impl['snaps'][r]['advantages'] if r < len(impl['snaps']) else None} differ from "
+                                                        f"Model.Pipeline.pipeline_adv (agreement per step: {oks})"))
+                    break
     if impl.get("use_sde"):
         for r in range(len(impl["snaps"])):
             got = [p - r * ns for p in impl["sde_resets"] if r * ns <= p < (r + 1) * ns]
